@@ -155,7 +155,8 @@ def session(ctx, r, idx):
 				# goes through the protocol model like any other command
 				snap = dict(bench.models[i].__dict__)
 				mst, _ = trxc.apply(bench.models[i], parsed[0], parsed[1], bench.models)
-				if parsed[0] == "FAKE_DROP" and mst == 0:
+				if parsed[0] == "FAKE_DROP" and mst == 0 and len(parsed[1]) in (1, 2):
+					# (only the two documented forms set a budget; other argument counts are acknowledged and ignored)
 					bench.budgets[i].set(bench.models[i].drop_amount, bench.models[i].drop_period)
 				if len(rsp) != 1:
 					ctx.violation("ctrl-reply", dict(w, datagram = payload[:120].hex()), what = "well-formed command not answered")
@@ -218,6 +219,19 @@ def session(ctx, r, idx):
 						what = "a malformed data message was queued instead of being dropped")
 					return
 				ctx.count("hostile_data_that_is_actually_valid")
+				# it sits in the queue for its own frame: let that frame come (odd burst lengths, header-only
+				# messages ... are forwarded - or refused - inside the clock tick)
+				try:
+					bench.tick(ref["fn"] % trxd.HYPERFRAME)
+				except Exception as e:
+					ctx.violation("tick-escape", dict(history = log[-10:], datagram = payload[:60].hex(), kind = kind, traceback = tb(e)),
+						what = "%s escapes the clock tick that forwards an accepted %s data message" % (type(e).__name__, kind))
+					return
+				ctx.count("accepted_hostile_data_ticked")
+				# whatever was forwarded in that tick may have used up one unit of a pending drop budget
+				for j, bd in enumerate(bench.budgets):
+					if j != i and bd.hi > 0 and bd.matches(ref["fn"] % trxd.HYPERFRAME):
+						bd.lo = max(0, bd.lo - 1)
 		# the clock keeps ticking
 		fn = (fn + 1) % trxd.HYPERFRAME
 		try:
@@ -537,7 +551,9 @@ def trxcon_systematic(ctx, binary):
 			# responses filling the receive buffer to the last octets, with and without any separator
 			for n in (1000, 1016, 1017, 1018, 1019, 1020, 1021, 1022, 1023, 1024, 1025, 1030, 2000):
 				for body in (b"RSP " + b"A" * (n - 4), ("RSP %s" % p[0]).encode() + b"A" * (n - 4 - len(p[0])),
-						("RSP %s " % p[0]).encode() + b"7" * (n - 5 - len(p[0])), b"RSP" + b" " * (n - 3)):
+						("RSP %s " % p[0]).encode() + b"7" * (n - 5 - len(p[0])), ("RSP %s " % p[0]).encode() + b"0" * (n - 5 - len(p[0])),
+						("RSP %s 0 " % p[0]).encode() + b"0" * (n - 7 - len(p[0])), ("RSP %s 0" % p[0]).encode() + b" " * (n - 6 - len(p[0])),
+						b"RSP" + b" " * (n - 3)):
 					forms.add(body)
 					forms.add(body[:-1] + b"\0")
 			for f in sorted(forms):
@@ -624,6 +640,7 @@ def run(ctx):
 	ctx.require("ctrl:non-numeric argument", 50)
 	ctx.require("ctrl:hostile threshold/period/version", 50)
 	ctx.require("data:truncated", 50)
+	ctx.require("accepted_hostile_data_ticked", 100)
 	ctx.require("parser_valueerror", 1000)
 	ctx.require("capture:random bytes", 50)
 	ctx.require("loop_rounds", 3)
